@@ -163,6 +163,13 @@ let rec eval (w : string array) : float list =
     let runs = List.init nruns (fun _ -> let nfr = ni () in List.init nfr (fun _ -> let g1 = group () in let g2 = group () in (g1, g2))) in
     (* the list before the first run is irrelevant (every run starts with a rebuild): start from an empty one *)
     List.concat (pl_session fops (z_of_int freq) r0 rv (z_of_int en) (z_of_int ed) tol cell [] runs)
+  | "selfCoordNumRuns" ->
+    (* frequency, parameters, number of runs, per run: number of frames, one group per frame *)
+    let freq = ni () in
+    let r0 = nf () in let en = ni () in let ed = ni () in let tol = nf () in
+    let nruns = ni () in
+    let runs = List.init nruns (fun _ -> let nfr = ni () in List.init nfr (fun _ -> self_pts (group ()))) in
+    List.concat (pl_session_pts fops (z_of_int freq) r0 None (z_of_int en) (z_of_int ed) tol cell [] runs)
   | "selfCoordNumPL" ->
     (* pair list built at the first positions, value at the second *)
     let r0 = nf () in let en = ni () in let ed = ni () in let tol = nf () in
@@ -339,6 +346,10 @@ let () =
              let q = (((fl w.(1), fl w.(2)), fl w.(3)), fl w.(4)) in
              let ((r1, r2), r3) = rotation_matrix fops q in
              Printf.printf "%s %s %s\n" (p3 r1) (p3 r2) (p3 r3)
+           | "PDT" ->
+             let f i = fl w.(i) in
+             let v i = ((f i, f (i + 1)), f (i + 2)) in
+             Printf.printf "%s\n" (p3 (pd_cell fops (v 1) (v 4) (v 7) (v 10) (v 13)))
            | "PD" ->
              let hc = int_of_string w.(1) <> 0 in
              let f i = fl w.(i) in
